@@ -69,27 +69,29 @@ type connState struct {
 }
 
 type peerState struct {
-	idx          int
-	cp           *ConnPlan
-	cli          *vsys.Sock // harness endpoint
-	srv          *vsys.Sock
-	pc           int
-	rem          int // remaining bytes of the current send/recv op
-	sent         int // inbound stream bytes put on the wire so far
-	rx           []byte
-	auto         bool // reads everything as it arrives
-	done         bool
-	closedByPeer bool
-	connected    bool
-	refused      bool
-	startNow     bool
-	dialFd       int
-	dialAsked    bool
-	udpKey       string
-	udpRemote    unix.Sockaddr
-	udpSeen      int
-	udpEmpty     bool
-	udpSizes     map[int]int
+	regOutsideRunning bool // Register/Enroll was called while the engine was not (yet) fully running
+	idx               int
+	cp                *ConnPlan
+	cli               *vsys.Sock // harness endpoint
+	srv               *vsys.Sock
+	pc                int
+	rem               int // remaining bytes of the current send/recv op
+	sent              int // inbound stream bytes put on the wire so far
+	rx                []byte
+	auto              bool // reads everything as it arrives
+	done              bool
+	closedByPeer      bool
+	connected         bool
+	refused           bool
+	startNow          bool
+	dialFd            int
+	dialAsked         bool
+	udpKey            string
+	udpRemote         unix.Sockaddr
+	udpSeen           int
+	udpEmpty          bool
+	udpUnreach        bool // the remote port of this connected UDP socket is gone (ICMP errors)
+	udpSizes          map[int]int
 }
 
 type asyncRec struct {
@@ -677,6 +679,18 @@ func (w *World) peerStep(ps *peerState) {
 	op := &ps.cp.Peer[ps.pc]
 	adv := true
 	if ps.cp.UDP {
+		if op.K == "unreach" {
+			// the remote port goes away: the next datagram the client sends is
+			// answered by an ICMP port-unreachable (pending socket error, EPOLLERR)
+			if cs := w.conns[ps.idx]; cs != nil && cs.opened && !cs.closed {
+				if u := w.k.UDPOf(cs.fd); u != nil {
+					u.Unreach = true
+					ps.udpUnreach = true
+					w.probes["udp-client-peer-unreachable"]++
+					w.logf("peer%d udp remote port gone", ps.idx)
+				}
+			}
+		}
 		if op.K == "send" {
 			id := w.k.UDPInjectCount() + 1
 			payload := make([]byte, op.N)
